@@ -34,6 +34,8 @@ func main() {
 		genSign(r, *prop)
 	case "C15":
 		genC15(r)
+	case "C18":
+		genC18(r)
 	case "C02":
 		genC02(r)
 	case "C01", "C07", "C13":
